@@ -71,10 +71,10 @@ def main():
     cases = []
     for _ in range(500 if quick else 6000):
         a, b = sp.pair(rng)
-        m = convgen.rand_mag(rng, ("int", "float"))
+        m = convgen.rand_mag(rng, ("int", "float", "dec"))
         r0 = rng.random()
         if r0 < 0.6: cases.append({"op": "in_unit", "a": {"m": m, "u": a}, "b": b})
-        else: cases.append({"op": rng.choice(["eq", "lt", "le", "gt", "add", "sub", "ne", "ge"]), "a": {"m": m, "u": a}, "b": {"m": convgen.rand_mag(rng, ("int", "float")), "u": b}})
+        else: cases.append({"op": rng.choice(["eq", "lt", "le", "gt", "add", "sub", "ne", "ge"]), "a": {"m": m, "u": a}, "b": {"m": convgen.rand_mag(rng, ("int", "float", "dec")), "u": b}})
     r, ro = run_both({"systems": True, "cases": cases})
     conv = [(cs, res) for cs, res in zip(cases, r["results"]) if cs["op"] == "in_unit"]
     run_block(c, "ship", r["export"], [x for x, _ in conv], [y for _, y in conv], Fraction(1, 10**11))
